@@ -31,6 +31,12 @@ def arenaStep (limit : Nat) (a : AState) (ws : List String) : Option AState × S
       | .panic => (none, "panic")
       | .diverge => (none, "diverge")
       | .ub => (none, "ub")
+  | ["faultd", id] =>
+    -- deallocate_with_default interrupted by a panic of `T::default()`: mask bit cleared, index pushed, item left in
+    -- the slot — the effect of deallocate_no_return
+    match id.toNat? with
+    | none => (some a, "bad-op")
+    | some id => let r := Arena.deallocateNoReturn a id; (some r.2, if r.1 then "fault" else "none")
   | ["deallocn", id] =>
     match id.toNat? with
     | none => (some a, "bad-op")
